@@ -389,6 +389,46 @@ impl Walk {
                 }
             }
             "snapshot" => self.on_snapshot(i, q, r),
+            "@summary_raw" => self.on_summary_raw(i, q, r),
+            "@rows_limit" => {
+                // reply: results per batch, accepted=N count=C reopen-count=R delete:.. refill:.. count=F
+                let batches: Vec<usize> = t[1..].iter().map(|x| x.parse().unwrap()).collect();
+                let parts: Vec<&str> = r.split(' ').collect();
+                let mut total = 0usize;
+                for (k, b) in batches.iter().enumerate() {
+                    let within = total + b <= 65536;
+                    let ok = parts.get(k) == Some(&"ok");
+                    if within && !ok {
+                        self.fail(&["C20"], i, q, r, format!("batch {k} keeps the table within 65,536 rows but was refused"));
+                    }
+                    if !within && ok {
+                        self.fail(&["C20"], i, q, r, format!("batch {k} takes the table beyond 65,536 rows but was accepted"));
+                    }
+                    if ok {
+                        total += b;
+                    }
+                }
+                let get = |key: &str| -> Option<String> { parts.iter().find_map(|p| p.strip_prefix(key).map(|x| x.to_string())) };
+                if get("count=") != Some(total.to_string()) {
+                    self.fail(&["C20"], i, q, r, format!("the table should hold the {total} accepted rows and be readable"));
+                }
+                if get("reopen-count=") != Some(total.to_string()) {
+                    self.fail(&["C20", "C01"], i, q, r, format!("after saving, the library does not read back the {total} rows it accepted"));
+                }
+                self.nontrivial.insert(q.to_string());
+            }
+            "@pool_limit" => {
+                let parts: Vec<&str> = r.split(' ').collect();
+                let oks = parts.iter().filter(|x| **x == "ok").count();
+                if parts.iter().any(|x| x.contains("panic")) {
+                    self.fail(&["C20"], i, q, r, "the operation that needs one more string than two-byte references can address panics instead of returning an error".into());
+                } else if let Some(last) = parts.last() {
+                    if *last != format!("reopen-rows={oks}") {
+                        self.fail(&["C20"], i, q, r, "after reaching the string capacity the saved file does not hold the accepted rows".into());
+                    }
+                }
+                self.nontrivial.insert(q.to_string());
+            }
             "raw" => self.on_raw(i, q, r),
             _ => {}
         }
@@ -601,6 +641,125 @@ impl Walk {
         }
         self.last_snap = Some((i, snap));
         self.ok_mutation_since_snap = false;
+    }
+
+    /// independent parse of the saved summary stream (OLE property set layout only)
+    fn on_summary_raw(&mut self, i: usize, q: &str, r: &str) {
+        let d = match bytes_of_hex(r) {
+            Some(d) => d,
+            None => {
+                self.fail(&["C10"], i, q, r, "summary stream missing from the saved file".into());
+                return;
+            }
+        };
+        let u16at = |o: usize| -> Option<u32> { Some(*d.get(o)? as u32 | (*d.get(o + 1)? as u32) << 8) };
+        let u32at = |o: usize| -> Option<u32> { Some(u16at(o)? | u16at(o + 2)? << 16) };
+        let mut problems: Vec<String> = vec![];
+        (|| -> Option<()> {
+            if u16at(0)? != 0xfffe {
+                problems.push("bad byte-order mark".into());
+            }
+            if u32at(24)? != 1 {
+                problems.push("section count is not 1".into());
+            }
+            let fmtid = &d.get(28..44)?;
+            if *fmtid != [0xe0u8, 0x85, 0x9f, 0xf2, 0xf9, 0x4f, 0x68, 0x10, 0xab, 0x91, 0x08, 0x00, 0x2b, 0x27, 0xb3, 0xd9] {
+                problems.push("wrong FMTID".into());
+            }
+            let so = u32at(44)? as usize;
+            let size = u32at(so)? as usize;
+            let count = u32at(so + 4)? as usize;
+            if so + size != d.len() {
+                problems.push(format!("section size {size} is not exact (stream has {} bytes after the section start)", d.len() - so));
+            }
+            let mut offs: Vec<(u32, usize)> = vec![];
+            for k in 0..count {
+                offs.push((u32at(so + 8 + 8 * k)?, u32at(so + 12 + 8 * k)? as usize));
+            }
+            let mut ends: Vec<(usize, usize)> = vec![];
+            let mut cp: u32 = 65001;
+            for (id, off) in &offs {
+                if off % 4 != 0 {
+                    problems.push(format!("offset of property {id} is not 4-byte aligned"));
+                }
+                let p = so + off;
+                let ty = match u32at(p) {
+                    Some(t) => t,
+                    None => {
+                        problems.push(format!("offset of property {id} points outside the stream"));
+                        continue;
+                    }
+                };
+                let len = match ty {
+                    0 | 1 => 4,
+                    2 | 3 | 16 => 8,
+                    64 => 12,
+                    30 => {
+                        let n = u32at(p + 4)? as usize;
+                        if n == 0 || d.get(p + 8 + n - 1) != Some(&0) {
+                            problems.push(format!("string property {id} is not NUL-terminated where its length says"));
+                        }
+                        (8 + n + 3) / 4 * 4
+                    }
+                    t => {
+                        problems.push(format!("offset of property {id} does not point at a typed value (type {t})"));
+                        continue;
+                    }
+                };
+                if *id == 1 && ty == 2 {
+                    cp = u16at(p + 4)?;
+                }
+                ends.push((*off, off + len));
+            }
+            ends.sort();
+            let mut pos = 8 + 8 * count;
+            for (a, b) in &ends {
+                if *a != pos {
+                    problems.push(format!("values are not laid out back to back (gap or overlap at section offset {a}, expected {pos})"));
+                    break;
+                }
+                pos = *b;
+            }
+            if pos != size && problems.is_empty() {
+                problems.push(format!("values end at {pos} but the section size is {size}"));
+            }
+            // strings decode (in the code page the set declares) to what the getters report
+            if let Some((_, snap)) = &self.last_snap {
+                for (id, key) in [(2u32, "title"), (3, "subject"), (4, "author"), (6, "comments"), (18, "app")] {
+                    let have = offs.iter().find(|o| o.0 == id);
+                    let want = snap.summary_field(key).unwrap_or_default();
+                    match have {
+                        None => {
+                            if want != "-" {
+                                problems.push(format!("property {key} is set but missing from the stream"));
+                            }
+                        }
+                        Some((_, off)) => {
+                            let p = so + off;
+                            if u32at(p) == Some(30) {
+                                let n = u32at(p + 4)? as usize;
+                                let bytes = d.get(p + 8..p + 8 + n.saturating_sub(1))?;
+                                let text = crate::decode::decode_text(cp, bytes);
+                                let wanted = str_of_hex(&want).unwrap_or_default();
+                                // what is representable must be exact
+                                let enc_back = crate::decode::decode_text(cp, &{
+                                    let name = crate::exec::ALL_CP.iter().find(|x| x.1.id() as u32 == cp).map(|x| x.1);
+                                    name.map(|c| c.encode(&wanted)).unwrap_or_default()
+                                });
+                                if text != wanted && enc_back == wanted {
+                                    problems.push(format!("property {key} is stored as {text:?}, the getter says {wanted:?}"));
+                                }
+                            }
+                        }
+                    }
+                }
+            }
+            Some(())
+        })();
+        self.nontrivial.insert(format!("sumraw {}", r.len()));
+        for p in problems {
+            self.fail(&["C10"], i, q, r, format!("independent property-set parser: {p}"));
+        }
     }
 
     fn on_raw(&mut self, i: usize, q: &str, r: &str) {
